@@ -311,7 +311,7 @@ impl Family for ParseTrees {
         &["C11"]
     }
     fn rule(&self) -> &'static str {
-        "all expression trees with <= 2 (quick) / <= 3 (thorough) operator nodes over 12 binary operators, unary - and !, call, field, tuple projection and method call; rendered with minimal parentheses, fully parenthesised and with 4 trivia patterns; non-trivial = trees whose minimal rendering drops at least one parenthesis pair relative to the full rendering; one case = a block of 500 trees"
+        "all expression trees with <= 2 (quick) / <= 3 (thorough) operator nodes over 12 binary operators, unary - and !, call, field, tuple projection and method call; rendered with minimal parentheses, fully parenthesised and with 4 trivia patterns; non-trivial = trees whose minimal rendering drops at least one parenthesis pair relative to the full rendering; one case = a block of 500 trees. Parenthesised callees: 14 callee forms (name, negation, sum, comparison, call, field, projection, method call, if, match, closure, nested parentheses) x 0..3 arguments x followed by nothing / a call / a field: the tree is the call of the callee's own tree. Expressions in 16 positions (let value, statement, block value, after a statement, after an if statement, if / else branch value, while body, closure block, match arm block and value, argument, tuple / array / struct-literal component, closure value): 8 leading forms (if, match, while, call, negation, not, parenthesised, struct literal) followed by each of the 12 binary operators, a field, and three operator pairs, against the same text with the whole expression parenthesised. Tuple projection chains written without blanks (9 index chains x 5 bases x 4 continuations) against the spaced, parenthesised spelling"
     }
     fn cases(&self, tier: Tier) -> Box<dyn Iterator<Item = Value> + '_> {
         let maxn = if tier == Tier::Quick { 2 } else { 3 };
@@ -324,6 +324,21 @@ impl Family for ParseTrees {
                 lo += 500;
             }
         }
+        for c in 0..CALLEES.len() {
+            for n in 0..=3 {
+                for second in 0..=2 {
+                    v.push(json!({"kind": "callee", "callee": c, "args": n, "second": second}));
+                }
+            }
+        }
+        for c in 0..CONTEXTS.len() {
+            v.push(json!({"kind": "position", "context": c}));
+        }
+        for c in 0..PROJ_CHAINS.len() {
+            for b in 0..PROJ_BASES.len() {
+                v.push(json!({"kind": "projection-chain", "chain": c, "base": b}));
+            }
+        }
         Box::new(v.into_iter())
     }
     fn case_timeout(&self, _tier: Tier) -> u64 {
@@ -331,6 +346,15 @@ impl Family for ParseTrees {
     }
     fn run(&self, case: &Value, _ctx: &mut Ctx) -> Report {
         let mut rep = Report::default();
+        if case["kind"] == "callee" {
+            return run_callee(case);
+        }
+        if case["kind"] == "projection-chain" {
+            return run_projection_chain(case);
+        }
+        if case["kind"] == "position" {
+            return run_position(case);
+        }
         let n = case["n"].as_u64().unwrap() as usize;
         let (lo, hi) = (case["lo"].as_u64().unwrap() as usize, case["hi"].as_u64().unwrap() as usize);
         let all = trees(n);
@@ -409,6 +433,207 @@ impl Family for ParseTrees {
         rep.sample = Some(json!({"operators": n, "first_tree": sexpr_model(&all[lo]), "first_minimal": join(&fm, " ")}));
         rep
     }
+}
+
+/// expressions that are called when written in parentheses: (name, text)
+const CALLEES: [(&str, &str); 14] = [
+    ("name", "f"),
+    ("negation", "-f"),
+    ("not", "!f"),
+    ("sum", "a + f"),
+    ("comparison", "a < f"),
+    ("call", "f(a)"),
+    ("empty-call", "f()"),
+    ("field", "s.fld"),
+    ("projection", "t.0"),
+    ("method-call", "s.mth(a)"),
+    ("if", "if c { f } else { g }"),
+    ("match", "match c { true => f, false => g }"),
+    ("closure", "|x| x + a"),
+    ("nested-parentheses", "(f)"),
+];
+
+/// `(callee)(args)` is the call of the value of `callee`: parse the callee alone, then the call, and
+/// compare; with `second` 1 / 2 the call is itself called / projected
+fn run_callee(case: &Value) -> Report {
+    let mut rep = Report::default();
+    let (cname, ctext) = CALLEES[case["callee"].as_u64().unwrap() as usize];
+    let n = case["args"].as_u64().unwrap() as usize;
+    let second = case["second"].as_u64().unwrap();
+    let args: Vec<&str> = ["p", "q + 1", "r(2)"][..n].to_vec();
+    let mut text_expr = format!("({})({})", ctext, args.join(", "));
+    match second {
+        1 => text_expr.push_str("(z)"),
+        2 => text_expr.push_str(".fld"),
+        _ => {}
+    }
+    let site = format!("callee={};args={};then={}", cname, n, ["nothing", "call", "field"][second as usize]);
+    rep.nontrivial_key = Some(site.clone());
+    let alone = parse_let_value(&wrap(ctext));
+    let arg_trees: Vec<Result<gast::Expr, String>> = args.iter().map(|a| parse_let_value(&wrap(a))).collect();
+    let text = wrap(&text_expr);
+    let got = parse_let_value(&text);
+    let replay = json!({"kind": "text", "text": text, "oracle": "parse-only"});
+    match (alone, got) {
+        (Ok(c), Ok(g)) => {
+            let mut want = format!("(call {} {})", sexpr_ast(&c), arg_trees.iter().map(|a| a.as_ref().map(sexpr_ast).unwrap_or_default()).collect::<Vec<_>>().join(" "));
+            match second {
+                1 => want = format!("(call {} z)", want),
+                2 => want = format!("(field {} fld)", want),
+                _ => {}
+            }
+            let have = sexpr_ast(&g);
+            rep.outcome = Some(if want == have { "callee:as-written".into() } else { format!("callee:{}", cname) });
+            if want != have {
+                rep.findings.push(Finding { property: "C11", class: "parse.full-vs-model".into(), site, detail: format!("{} expected {} got {}", text_expr, want, have), replay });
+            } else {
+                rep.tag("parse:callee-as-written");
+            }
+        }
+        (Err(e), _) => {
+            rep.tag("machinery:callee-alone-rejected");
+            rep.sample = Some(json!({"callee": ctext, "error": e}));
+        }
+        (_, Err(e)) => {
+            rep.outcome = Some("callee:rejected".into());
+            rep.findings.push(Finding { property: "C11", class: "parse.rejected".into(), site: format!("{};msg={}", site, normalise_msg(&e)), detail: format!("{}: {}", text_expr, e), replay });
+        }
+    }
+    rep
+}
+
+/// where an expression can stand: (name, text with § for the expression)
+const CONTEXTS: [(&str, &str); 16] = [
+    ("let-value", "fn main() { let r = §; () }"),
+    ("statement", "fn main() { §; () }"),
+    ("block-value", "fn main() -> int32 { § }"),
+    ("block-value-after-a-statement", "fn main() -> int32 { let z = 1; § }"),
+    ("statement-after-an-if-statement", "fn main() { if k { () } else { () }; §; () }"),
+    ("if-branch-value", "fn main() { let r = if k { § } else { z }; () }"),
+    ("else-branch-value", "fn main() { let r = if k { z } else { § }; () }"),
+    ("while-body-statement", "fn main() { while k { §; }; () }"),
+    ("closure-block-value", "fn main() { let r = |q| { § }; () }"),
+    ("match-arm-block-value", "fn main() { let r = match k { true => { § }, false => z }; () }"),
+    ("match-arm-value", "fn main() { let r = match k { true => §, false => z }; () }"),
+    ("argument", "fn main() { let r = g(§, z); () }"),
+    ("tuple-component", "fn main() { let r = (§, z); () }"),
+    ("array-element", "fn main() { let r = [§, z]; () }"),
+    ("struct-field-value", "fn main() { let r = P { a: §, b: z }; () }"),
+    ("closure-value", "fn main() { let r = |q| §; () }"),
+];
+
+/// expressions whose first token also starts a statement or could end one
+fn leading_forms() -> Vec<(String, String)> {
+    let mut v = Vec::new();
+    let heads = [
+        ("if", "if c { a } else { b }"),
+        ("match", "match c { true => a, false => b }"),
+        ("while", "while c { () }"),
+        ("call", "f(a)"),
+        ("negation", "-a"),
+        ("not", "!a"),
+        ("parenthesised", "(a)"),
+        ("struct-literal", "P { a: a, b: b }"),
+    ];
+    for (hn, h) in heads {
+        for (op, _) in BINOPS {
+            v.push((format!("{}-then-{}", hn, op), format!("{} {} y", h, op)));
+        }
+        v.push((format!("{}-then-field", hn), format!("{}.fld", h)));
+        v.push((format!("{}-then-minus-then-plus", hn), format!("{} - y + x", h)));
+        v.push((format!("{}-then-minus-then-equals", hn), format!("{} - y == x", h)));
+        v.push((format!("{}-then-or-then-and", hn), format!("{} || y && x", h)));
+    }
+    v
+}
+
+/// the expression means the same wherever it stands: with and without parentheses around the whole
+/// of it the file is the same tree
+fn run_position(case: &Value) -> Report {
+    let mut rep = Report::default();
+    let (cname, ctext) = CONTEXTS[case["context"].as_u64().unwrap() as usize];
+    let parse_file = |text: &str| -> Result<String, String> {
+        match catch_unwind(AssertUnwindSafe(|| compiler::pipeline::pipeline::parse_ast_file(Path::new("m.gom"), text))) {
+            Ok(Ok(f)) => Ok(strip_astptr(&format!("{:?}", f))),
+            Ok(Err(e)) => {
+                let (stage, msg) = crate::families::common::describe_err(&e);
+                Err(format!("rejected at {}: {}", stage, msg))
+            }
+            Err(p) => Err(format!("panic: {}", panic_message(p))),
+        }
+    };
+    let mut n = 0u64;
+    for (fname, expr) in leading_forms() {
+        n += 1;
+        let bare = ctext.replace('§', &expr);
+        let wrapped = ctext.replace('§', &format!("({})", expr));
+        let site = format!("position={};expression={}", cname, fname);
+        rep.more_keys.push(fnv(&bare));
+        let replay = json!({"kind": "text", "text": bare, "oracle": "parse-only", "same_tree_as": wrapped});
+        match (parse_file(&wrapped), parse_file(&bare)) {
+            (Ok(w), Ok(b)) => {
+                if w != b {
+                    rep.findings.push(Finding { property: "C11", class: "parse.min-vs-full".into(), site, detail: format!("{:?} is not read as {:?}", bare, wrapped), replay });
+                }
+            }
+            (Err(e), _) => {
+                rep.tag("machinery:position-reference-rejected");
+                rep.sample = Some(json!({"text": wrapped, "error": e}));
+            }
+            (_, Err(e)) => {
+                rep.findings.push(Finding { property: "C11", class: "parse.rejected".into(), site: format!("{};msg={}", site, normalise_msg(&e)), detail: format!("{:?}: {}", bare, e), replay });
+            }
+        }
+    }
+    rep.sub_evaluations = n;
+    rep.outcome = Some(format!("position:{}:{}", cname, rep.findings.len()));
+    if rep.findings.is_empty() {
+        rep.tag("parse:position-independent");
+    }
+    rep
+}
+
+/// tuple projections written the usual way, without blanks: `t.0.1` is `(t.0).1`
+const PROJ_CHAINS: [&[usize]; 9] = [&[0, 1], &[1, 0], &[0, 0], &[2, 1, 0], &[0, 1, 2], &[1, 1, 1, 1], &[0, 1, 0, 1, 2], &[10, 2], &[3, 12]];
+const PROJ_BASES: [&str; 5] = ["t", "f(a)", "s.fld", "t.0", "(a, b)"];
+
+fn run_projection_chain(case: &Value) -> Report {
+    let mut rep = Report::default();
+    let chain = PROJ_CHAINS[case["chain"].as_u64().unwrap() as usize];
+    let base = PROJ_BASES[case["base"].as_u64().unwrap() as usize];
+    let mut compact = base.to_string();
+    let mut spaced = format!("({})", base);
+    for i in chain {
+        compact.push_str(&format!(".{}", i));
+        spaced = format!("({}) . {}", spaced, i);
+    }
+    // and a field, a call and an operator after the chain
+    for (tail_name, tail) in [("nothing", ""), ("field", ".fld"), ("call", "(z)"), ("sum", " + 1")] {
+        let site = format!("projection-chain;length={};base={};then={}", chain.len(), base, tail_name);
+        rep.more_keys.push(fnv(&format!("{}{}{}", site, compact, tail)));
+        let text = wrap(&format!("{}{}", compact, tail));
+        let reference = wrap(&format!("({}){}", spaced, tail));
+        let replay = json!({"kind": "text", "text": text, "oracle": "parse-only"});
+        match (parse_let_value(&reference), parse_let_value(&text)) {
+            (Ok(w), Ok(g)) => {
+                if sexpr_ast(&w) != sexpr_ast(&g) {
+                    rep.findings.push(Finding { property: "C11", class: "parse.min-vs-full".into(), site, detail: format!("{}{} parsed as {} but the parenthesised form as {}", compact, tail, sexpr_ast(&g), sexpr_ast(&w)), replay });
+                } else {
+                    rep.tag("parse:projection-chain-as-written");
+                }
+            }
+            (Err(e), _) => {
+                rep.tag("machinery:projection-reference-rejected");
+                rep.sample = Some(json!({"text": reference, "error": e}));
+            }
+            (_, Err(e)) => {
+                rep.findings.push(Finding { property: "C11", class: "parse.rejected".into(), site: format!("{};msg={}", site, normalise_msg(&e)), detail: format!("{}{}: {}", compact, tail, e), replay });
+            }
+        }
+    }
+    rep.sub_evaluations = 4;
+    rep.outcome = Some(format!("projection-chain:{}", if rep.findings.is_empty() { "as-written" } else { "differs" }));
+    rep
 }
 
 fn shape(t: &T) -> String {
